@@ -584,3 +584,79 @@ pub fn load(text: &str, sigs: &[Sig]) -> Result<TestCase, LoadErr> {
 pub fn err_text(e: &dyn std::error::Error) -> String {
     err_chain(e)
 }
+
+// ---------------------------------------------------------------------------------------------
+// static iteration
+
+#[derive(Clone, Debug, PartialEq, Eq)]
+pub struct StaticRow {
+    pub inputs: Vec<(String, InVal, bool)>,
+    pub expected: Vec<(String, ExpVal)>,
+    pub line: usize,
+}
+
+#[derive(Clone, Debug, PartialEq, Eq)]
+pub enum StaticItem {
+    Row(StaticRow),
+    Err(String),
+    Panic(PanicSig),
+}
+
+#[derive(Clone, Debug)]
+pub enum StaticRun {
+    /// try_iter_static refused: the test is not static
+    NotStatic(String),
+    CtorPanic(PanicSig),
+    Items { items: Vec<StaticItem>, ended: bool },
+}
+
+pub fn run_static(tc: &TestCase, max_next: usize, seed: Option<u64>) -> StaticRun {
+    digital_test_runner::verif_hooks::set_seed_override(seed);
+    let _ = digital_test_runner::verif_hooks::take_log();
+    let r = match guarded(|| tc.try_iter_static()) {
+        Err(p) => StaticRun::CtorPanic(p),
+        Ok(Err(e)) => StaticRun::NotStatic(err_chain(&e)),
+        Ok(Ok(mut it)) => {
+            let mut items = vec![];
+            let mut ended = false;
+            for _ in 0..max_next {
+                let item = guarded(|| {
+                    it.next().map(|r| {
+                        r.map(|row| StaticRow {
+                            inputs: row
+                                .inputs
+                                .iter()
+                                .map(|e| (e.signal.name.clone(), inval(e.value), e.changed))
+                                .collect(),
+                            expected: row
+                                .expected
+                                .iter()
+                                .map(|e| (e.signal.name.clone(), expval(e.value)))
+                                .collect(),
+                            line: row.line,
+                        })
+                    })
+                });
+                match item {
+                    Err(p) => {
+                        items.push(StaticItem::Panic(p));
+                        break;
+                    }
+                    Ok(None) => {
+                        ended = true;
+                        break;
+                    }
+                    Ok(Some(Ok(r))) => items.push(StaticItem::Row(r)),
+                    Ok(Some(Err(e))) => {
+                        items.push(StaticItem::Err(err_chain(&e)));
+                        break;
+                    }
+                }
+            }
+            StaticRun::Items { items, ended }
+        }
+    };
+    let _ = digital_test_runner::verif_hooks::take_log();
+    digital_test_runner::verif_hooks::set_seed_override(None);
+    r
+}
